@@ -325,7 +325,7 @@ def lm_cfg(rng):
 def run(ck):
     rng = ck.rng("c08")
     thorough = ck.tier == "thorough"
-    nh = 60 if thorough else 6
+    nh = 160 if thorough else 6
     templates = ["pose_log", "points", "alg_log", "mixed_so3_offset", "two_outputs", "three_params"]
     hid = 0
     # ---- random models, LM and GN
